@@ -7,7 +7,7 @@
              answered (act, k) and - for a file answered with send/resume - the 4-byte size prefix, the number of
              bytes that followed until the server waited for input again (follow), whether they parse as a
              flattened file object (obj), the length of its data section (dlen) and whether those bytes are the
-             last dlen bytes of the source file (sfx)
+             last dlen bytes of the source file (sfx; sfxp = of the content of the name without ".incomplete")
      dlend   how the transfer ended (status), the number of headers received, count again
      upreq   the action the server opened the upload with
      upitem  one streamed item (path, kind, size, cut) and the server's answer (act, resume offset off, ack); the
@@ -34,6 +34,12 @@ tvars == <<vars, l, skip, seen>>
 
 ToSet(sq) == {sq[i] : i \in DOMAIN sq}
 NodeOf(r) == [path |-> r.path, kind |-> r.kind, size |-> r.size, partial |-> r.partial]
+
+(* an entry of the snapshot named x.incomplete is the partial data of x - unless the model holds an entry the client
+   named that way: then it is that entry, and its bytes are judged against the content of the literal name *)
+Literal(r) == r.partial /\ \E n \in disk : ~n.partial /\ n.path = r.raw
+ObsOf(r) == IF Literal(r) THEN [path |-> r.raw, kind |-> r.kind, size |-> r.size, partial |-> FALSE] ELSE NodeOf(r)
+ObsOK(r) == IF Literal(r) THEN r.pfxraw ELSE r.pfx
 
 Rep(tag, e, clause, kind, detail) ==
   PrintT(tag \o " " \o ToJson([prop |-> "C10", run |-> e.run, line |-> l, op |-> e.op, clause |-> clause,
@@ -95,7 +101,7 @@ TrDlItem(e) ==
             THEN LET okO == e.sends /\ e.obj
                      okP == e.prefix = e.follow
                      okL == e.dlen = out'.dlen
-                     okB == e.sfx
+                     okB == IF Head(todo).partial THEN e.sfxp ELSE e.sfx   \* partial data holds the content of the final name
                  IN IF okO /\ okP /\ okL /\ okB THEN seen' = seen
                     ELSE Note("VIOL", e, "ChoiceHonoured", ChoiceKind(e, okP, okL, okB, okO),
                               [expected |-> out', okObject |-> okO, okPrefix |-> okP, okLen |-> okL, okBytes |-> okB])
@@ -151,8 +157,8 @@ TrUpEnd(e) ==
     THEN Stop("DRIFT", e, "harness", "upload dialogue did not complete: " \o e.status, [ph |-> ph, left |-> left])
   ELSE IF ph \notin {"up", "cut"} \/ (~Early(e) /\ ~UpEndOK(e)) THEN Stop("DRIFT", e, "script", "upload end not enabled", [ph |-> ph, left |-> left])
   ELSE LET resumed == out.op = "upitem" /\ out.act = 2      \* the last item was a resumed file
-           obs == {NodeOf(r) : r \in ToSet(e.snap)}
-           badBytes == {NodeOf(r) : r \in {x \in ToSet(e.snap) : ~x.pfx}}
+           obs == {ObsOf(r) : r \in ToSet(e.snap)}
+           badBytes == {ObsOf(r) : r \in {x \in ToSet(e.snap) : ~ObsOK(x)}}
            finO == {n \in obs : ~n.partial}
            parO == obs \ finO
            wasCut == ph = "cut"
